@@ -171,6 +171,10 @@ func c08CheckShard(w *rwWorld, side string, idx int) string {
 	if cur.sendChan == nil || cur.sendChan != live.snap.sendChan {
 		return fmt.Sprintf("%s: the delivery channel registered is not the live incarnation's", name)
 	}
+	// watermark-only batches are broadcast to every delivery channel of the cluster, looked up through another accessor
+	if ch := w.sm.GetRemoteSendChansByCluster(shard.ClusterID)[shard]; ch == nil || ch != live.snap.sendChan {
+		return fmt.Sprintf("%s: the delivery channel a watermark broadcast to the cluster would use is not the live incarnation's (present=%v)", name, ch != nil)
+	}
 	if cur.ackChan == nil || cur.ackChan != live.snap.ackChan {
 		return fmt.Sprintf("%s: the acknowledgement channel registered is not the live incarnation's (present=%v)", name, cur.ackChan != nil)
 	}
